@@ -138,6 +138,9 @@ def run(prog, tier) -> Result:
         if not DV(st, v).equals(DV(st, r).inv() * RF.const(1)) and not (DV(st, v) * DV(st, r)).equals(RF.const(1)):
             return ("inverted rate is not the reciprocal in the opposite direction",
                     f"{st.ufind(v.unit.uid)}->{st.ufind(v.term.uid)}: {DV(st, v)!r}")
+        if st.rnd_depth(v.ta.rf) != 1:
+            return ("inverted rate is not rounded exactly once",
+                    f"stored amount {st.norm(v.ta.rf)!r}: the reciprocal is rounded before the constructor scales and rounds it")
         return None
     cr.run("R09.1", ER("inverted"), "inverted", one_rate, judge_inverted)
 
@@ -154,22 +157,35 @@ def run(prog, tier) -> Result:
     # ---- constructor: R09.2 guards dominate the normal exit, R09.3 normal form by construction
     init = ER("__init__")
     erci = prog.cls("ExchangeRate")
-    for akind in ("dec", "frac", "float", "str", "int"):
+    for akind in ("dec", "frac", "float", "str", "int", "dec/code-unit", "dec/code-term"):
         for ukind in ("int", "dec"):
             def setup(c, akind=akind, ukind=ukind):
                 c.new_type("M", **FLAVORS["money"])
                 a, b = c.unit("ua", "M"), c.unit("ub", "M")
+                if akind == "dec/code-unit":
+                    a = StrV(None, "unit-code")
+                if akind == "dec/code-term":
+                    b = StrV(None, "term-code")
+                if "/" in akind:
+                    akind = "dec"
                 me = ObjV(erci, "rate")
                 ta = StrV(None, "amount-text") if akind == "str" else c.num("ta", akind)
                 return [me, a, c.num("um", ukind), b, ta], {}
 
-            def judge(o, akind=akind):
+            def judge(o, akind=akind.split("/")[0]):
                 st = o.state
                 if o.kind == "raise":
                     if o.exc.name in ("ValueError", "TypeError"):
                         return None
                     return (exc_sig(o), "contract: ValueError / TypeError for rejected input")
                 me, ua, um_in, ub, ta_in = o.args
+                # currencies given by ISO code are judged by what was stored for them
+                if isinstance(ua, StrV):
+                    ua = me.fields.get("_unit_currency")
+                if isinstance(ub, StrV):
+                    ub = me.fields.get("_term_currency")
+                if not isinstance(ua, UnitV) or not isinstance(ub, UnitV):
+                    return ("currency not resolved to a Currency", f"{ua!r}, {ub!r}")
                 # R09.2: guards passed on this normal exit
                 if st.same_unit(ua.uid, ub.uid) is not False:
                     return ("identical currencies not rejected", "normal exit without the currencies being distinct")
